@@ -14,7 +14,9 @@ def T(s):
 class HGen:
     def __init__(self, rng):
         self.r = rng
-        self.info = {"super": False, "supersuper": False, "self": False, "scoped": False,
+        self.loopblocks = set()
+        self.info = {"super": False, "supersuper": False, "self": False, "scoped": False, "scoped_reads_loop": False,
+                     "block_in_toplevel_if": False,
                      "required": False, "dynamic": False, "conditional": False, "nested": False,
                      "outside": False}
 
@@ -69,7 +71,19 @@ class HGen:
                 if r.random() < 0.4:
                     body.append(T(f"[{tn}.out{self.next()}]"))
                     self.info["outside"] = True
-                body.append(self.block_def(tn, n, scoped[n], defined[n] > 0, names, ov, lvl))
+                bd = self.block_def(tn, n, scoped[n], defined[n] > 0, names, ov, lvl)
+                w = r.random()
+                if w < 0.15:
+                    # a block definition wrapped in a top-level if of a child template is only
+                    # registered, never rendered in place
+                    bd = ["if", [[C(True), [bd]]], None]
+                    self.info["block_in_toplevel_if"] = True
+                elif w < 0.3:
+                    fl = f"bf{lvl}_{n}"
+                    data[fl] = r.random() < 0.5
+                    bd = ["if", [[N(fl), [bd]]], [T(f"[{tn}.else{self.next()}]")]]
+                    self.info["block_in_toplevel_if"] = True
+                body.append(bd)
                 defined[n] += 1
             if r.random() < 0.4:
                 body.append(T(f"[{tn}.tail{self.next()}]"))
@@ -113,10 +127,22 @@ class HGen:
             blk = ["block", n, inner, scoped[n], False]
             placed.append(n)
             if r.random() < 0.4:
-                # block inside a loop: scoped ones see the loop variable
-                body.append(["for", ["item"], N("items"), [T("("), blk, T(")")], None, None, False])
+                # block inside a loop: scoped ones see the loop variable (and `loop`)
                 if scoped[n]:
                     self.info["scoped"] = True
+                    self.loopblocks.add(n)
+                    if r.random() < 0.6:
+                        inner.append(["out", ["attr", N("loop"), self.pick(["index", "revindex", "length", "first"])]])
+                        self.info["scoped_reads_loop"] = True
+                site = blk
+                w = r.random()
+                if w < 0.25:
+                    site = ["if", [[C(True), [blk]]], None]
+                elif w < 0.45:
+                    site = ["with", [["wv", C(1)]], [blk]]
+                elif w < 0.55:
+                    site = ["if", [[N("x") if False else C(True), [["with", [["wv", C(2)]], [blk]]]]], None]
+                body.append(["for", ["item"], N("items"), [T("("), site, T(")")], None, None, False])
             else:
                 body.append(blk)
             body.append(T(f"[{tn}.sep{self.next()}]"))
@@ -138,6 +164,9 @@ class HGen:
             self.info["supersuper"] = True
         if r.random() < 0.5:
             inner.append(["out", N("item")])
+        if scoped and n in self.loopblocks and r.random() < 0.4:
+            inner.append(["out", ["attr", N("loop"), self.pick(["index", "last"])]])
+            self.info["scoped_reads_loop"] = True
         if r.random() < 0.15 and not scoped:
             # self.x() from inside a scoped block: which variables the called
             # block sees is undocumented, so only unscoped blocks call it
